@@ -27,3 +27,15 @@ pub fn share(f: asefile::AsepriteFile) -> usize {
     let h = std::thread::spawn(move || g.width());
     f.height() + h.join().unwrap()
 }
+
+/// Informational (`--features notes`): C16 names the sprite type, not the unnameable iterator types
+/// behind `impl Iterator` return values. Losing `Send`/`Sync` there is an API change a maintainer
+/// wants to hear about, but the sprite can still be shared, so it is reported as a NOTE only.
+#[cfg(feature = "notes")]
+pub fn returned_iterators_are_send_and_sync(f: &asefile::AsepriteFile) {
+    fn val<T: Send + Sync>(_: &T) {}
+    // the only `impl Trait` return value of the public API at the pinned commit
+    val(&f.tilesets().iter());
+    val(&f.external_files().map().iter());
+    val(&f.slices().iter());
+}
